@@ -49,7 +49,8 @@ func main() {
 		maxPaths  = flag.Int("maxpaths", 20000, "max paths per harness")
 		maxLoop   = flag.Int("maxloop", 300, "loop bound per loop head per frame")
 		maxLen    = flag.Int("maxlen", 16, "bound for symbolic lengths")
-		timeoutMs = flag.Int("timeout", 20000, "solver timeout per query (ms)")
+		timeoutMs = flag.Int("timeout", 10000, "solver timeout per query (ms)")
+		fallbackMs = flag.Int("fallback", 120000, "timeout (ms) for the cvc5 / z3-5.1 fallback on unknown; 0 disables")
 		solverK   = flag.String("solver", "z3", "z3 | z3new | cvc5")
 		verbose   = flag.Bool("v", false, "verbose")
 		maxSteps  = flag.Int64("maxsteps", 50_000_000, "SSA instruction budget per path")
@@ -206,7 +207,7 @@ func main() {
 			}
 			defer sol.Close()
 			x := &Exec{prog: prog, ts: ts, sol: sol, layoutCache: nil,
-				cfg: Config{MaxPaths: *maxPaths, MaxLoop: *maxLoop, MaxDepth: 400, MaxLen: *maxLen, MaxSteps: *maxSteps, TimeoutMs: *timeoutMs, Params: pm, Verbose: *verbose}}
+				cfg: Config{MaxPaths: *maxPaths, MaxLoop: *maxLoop, MaxDepth: 400, MaxLen: *maxLen, MaxSteps: *maxSteps, TimeoutMs: *timeoutMs, FallbackMs: *fallbackMs, Params: pm, Verbose: *verbose}}
 			x.initLayout()
 			sol.Axioms = x.ufAxioms
 			for {
@@ -324,6 +325,7 @@ func mergeResult(dst, src *HarnessResult, inc, uns, fns map[string]bool) {
 	dst.Structural += src.Structural
 	dst.Queries += src.Queries
 	dst.UnknownQ += src.UnknownQ
+	dst.FallbackQ += src.FallbackQ
 	dst.InfeasibleEnd += src.InfeasibleEnd
 	dst.DistinctQ += src.DistinctQ
 	for k, v := range src.Reached {
